@@ -339,6 +339,11 @@ def expand_world(rng) -> World:
         e2 = w.add_lexicon('e', '2', lang='en')
         fill_lexicon(w, e2, rng, rng.randint(2, 3), 0, ilis)
         add_relations(w, e2, rng, rng.randint(1, 4), 0, 0, types=['hypernym', 'hyponym'])
+        # the two versions also declare some of the very same relations (name, source id, target id)
+        have = {(x[0], x[1]) for x in w.synsets}
+        for r in [r for r in w.ssrels if r[0] == 'e:1' and r[1] == 'e:1' and r[4] == 'e:1']:
+            if ('e:2', r[2]) in have and ('e:2', r[5]) in have and rng.random() < 0.7:
+                w.ssrels.append(['e:2', 'e:2', r[2], r[3], 'e:2', r[5], r[6], r[7]])
         m = w.add_lexicon('m', '1', lang='de', requires=rng.choice([['e:2'], ['e:2', 'e:1'], ['e:9']]))
         fill_lexicon(w, m, rng, rng.randint(2, 3), 1, ilis)
     return w
@@ -365,6 +370,11 @@ def scope_world(rng) -> World:
         x2 = w.add_lexicon('x', '2', base=a1)
         fill_lexicon(w, x2, rng, rng.randint(1, 2), 1, ['', 'i4'])
         add_relations(w, x2, rng, rng.randint(0, 2), 0, 0)
+    if order < 0.8 and rng.random() < 0.5:
+        # an extension of the LATER version of a (whose ids a:1 shares)
+        z = w.add_lexicon('z', '1', base=a2)
+        fill_lexicon(w, z, rng, rng.randint(1, 2), 1, ['', 'i4'])
+        add_relations(w, z, rng, rng.randint(0, 2), rng.randint(0, 1), 0)
     u = w.add_lexicon('u', '1', lang='fr', requires=rng.choice([[], ['a:1'], ['a:2']]))
     fill_lexicon(w, u, rng, rng.randint(2, 3), rng.randint(1, 2), ilis)
     add_relations(w, u, rng, rng.randint(0, 2), 0, 0)
